@@ -128,7 +128,7 @@ Qed.
 
 Definition aborted_phase (ph : cphase18) : bool :=
   match ph with
-  | PIdle | PWaitAck | PSending | PConnecting | PRecovery | PRetryWait => true
+  | PIdle | PWaitAck | PSending | PConnecting | PRecovery | PRetryWait | PHandOver => true
   | PSendingLate | PConnectingLate => late_abort sh
   | PStuck => false
   end.
